@@ -49,3 +49,64 @@ Section CrashEngine.
     | None => None
     end.
 End CrashEngine.
+
+(* ------------------------------------------------------------------------------------------ *)
+(* The same on the engine with amended inputs, deferral and failing steps                      *)
+(* (model/Engine.v Section Amend; [gate] = true is the dispatch rule of the code)              *)
+(* ------------------------------------------------------------------------------------------ *)
+(* One dispatch decision [a_step_build] is, in the implementation, the transactions listed at the
+   top of this file plus one transaction per amend() call of the running command
+   (Workflow.amend_step: the amended edges are committed while the command runs) and, for a run
+   that ends without success, the completion Step.mark_completed(None, wants_defer): stored hash
+   deleted, state FAILED or PENDING + deferred.
+   What the restart finds for the step [s] whose command was running when the director was killed,
+   after startup.reset_interrupted_steps (RUNNING -> FAILED -> Workflow.mark_step_pending):
+     - PENDING, not deferred (mark_step_pending clears the flag), no recorded trace
+       (Executor._reset_step_to_pending deleted the stored hash before the command started:
+       C05_started_then_crash), ANY content at its outputs;
+     - remembered amended inputs [dyn]: Step.reset_for_rerun deleted the edges of the previous run,
+       every amend() call of the killed command that was committed added its own: some of the
+       inputs the command asks for on the present contents of its declared inputs
+       ([incl dyn (extra_now ...)]; [] when it was killed before its first amend()).
+   The flags [afail] of the steps that failed earlier in the killed build are still set in the file
+   (state FAILED); reset_interrupted_steps makes them PENDING, which is what [resync_a] does. *)
+Section CrashAmend.
+  Variable run : N -> list (option N) -> list (option N) -> N -> N.
+  Variable amend : N -> list (option N) -> list N.
+  Variable fails : N -> list (option N) -> list (option N) -> bool.
+  Variable gate : bool.
+
+  Definition a_build_from_g (proj todo : project) (y : asys) : asys :=
+    fold_left (fun y s => a_step_build run amend fails gate proj s y) todo y.
+  Definition a_build_prefix (proj : project) (k : nat) (y : asys) : asys :=
+    a_build_from_g proj (firstn k proj) y.
+
+  Definition torn_a (s : step) (y : asys) (junk : N -> option N) (dyn : list N) : asys :=
+    mkA (torn s (abase y) junk) (upd (adyn y) (sid s) dyn) (upd (adef y) (sid s) false) (afail y).
+
+  Inductive crash_state_a (proj : project) (y : asys) : asys -> Prop :=
+  | CSA_between (k : nat) : crash_state_a proj y (a_build_prefix proj k y)
+  | CSA_inside (k : nat) (s : step) (junk : N -> option N) (dyn : list N) :
+      nth_error proj k = Some s -> stt (abase (a_build_prefix proj k y)) (sid s) = Pending ->
+      incl dyn (extra_now amend (abase (a_build_prefix proj k y)) s) ->
+      crash_state_a proj y (torn_a s (a_build_prefix proj k y) junk dyn).
+
+  (* the restarted director: reset_interrupted_steps + startup rescans against the world as it
+     is, then a build *)
+  Definition restart_a (proj : project) (c : asys) : asys :=
+    build_world_a run amend fails gate proj (fs (abase c), ev (abase c)) c.
+
+  Definition crash_inside_a_b (proj : project) (y : asys) (k : nat) (junk : N -> option N)
+             (ndyn : nat) : option asys :=
+    match nth_error proj k with
+    | Some s => let z := a_build_prefix proj k y in
+                if is_succ (stt (abase z) (sid s)) then None
+                else Some (torn_a s z junk (firstn ndyn (extra_now amend (abase z) s)))
+    | None => None
+    end.
+
+  (* boolean form of same_result_a for concrete instances *)
+  Definition same_result_a_b (proj : project) (y z : asys) : bool :=
+    same_result_b proj (abase y) (abase z) &&
+    forallb (fun s => Bool.eqb (afail y (sid s)) (afail z (sid s))) proj.
+End CrashAmend.
